@@ -358,7 +358,7 @@ func verifH_C11_step() {
 	before := verifTreeInvariant(bt, "pre/")
 	verifReach("pre-state-well-formed")
 
-	switch verifChoice("op", 4) {
+	switch verifChoice("op", verifParam("ops", 4)) {
 	case 0: // insert, as the engine does it: key = lastKey+1
 		val := verifBytes("newval", verifParam("newvlen", 1))
 		wantKey := st.getLastKey() + 1
@@ -439,6 +439,16 @@ func verifH_C11_step() {
 		}
 		verifAssert(ok, "content/only-that-cell-updated")
 		verifReach("update-done")
+	}
+	if onDisk {
+		// what the operation left behind must survive a flush and a cold reload
+		fstNow := st.(*fileStore)
+		verifAssert(fstNow.flushPages() == nil, "inv/post-flush")
+		fstNow.file.Close()
+		fst3, err := newFileStore("data/tbl", false)
+		verifAssert(err == nil && fst3.open() == nil, "inv/post-reopen")
+		bt3 := &BTree{store: fst3, rootOffset: bt.rootOffset}
+		verifTreeInvariant(bt3, "inv/reloaded/")
 	}
 	verifReach("end")
 }
